@@ -7,6 +7,7 @@ CONSTANTS
   MaxUmi = 2
   Indexes = {"single", "dual", "empty"}
   Limit = 60
+  Shapes = {"rr"}
   RequireSafe = TRUE
   Variant = "design"
 CONSTRAINT Emit
